@@ -21,9 +21,55 @@ fn tables(l: &Link, h: i64, t: i64, red: bool) -> String {
     out.join(" ")
 }
 
+/// `hr <h> <t> <a> <b> <k> ; <link>`: the builder option h_range (TngComplexBuilder::set_h_range, set before any
+/// crossing when k = 0, or after the first k listed crossings have been absorbed): in every homological degree
+/// strictly inside a..=b the homology of the restricted build must be that of the unrestricted build.
+/// Result: "<unrestricted table over Z> | same=<0|1>"; the model side prints the oracle's table and same=1.
+fn run_hr(head: &[&str], link: &str) -> String {
+    use yui_kh::kh::internal::v2::builder::TngComplexBuilder;
+    use yui_homology::{ChainComplexTrait, GridTrait, SummandTrait};
+    let (h, t): (i64, i64) = (head[1].parse().unwrap(), head[2].parse().unwrap());
+    let (a, b): (isize, isize) = (head[3].parse().unwrap(), head[4].parse().unwrap());
+    let k: usize = head[5].parse().unwrap();
+    let l = parse_link(link);
+    let full = match guarded(|| kh_table::<i64>(&l, &h, &t, false, true)) { Some(s) => s, None => return "P".into() };
+    let restricted = guarded(|| {
+        let mut bld = TngComplexBuilder::<i64>::new(&l, &h, &t, None);
+        bld.set_elements(vec![]);
+        if k == 0 {
+            bld.set_h_range(a..=b);
+            bld.process_all();
+        } else {
+            let data = l.data().clone();
+            let k = k.min(data.len());
+            bld.set_crossings(data[..k].to_vec());
+            bld.process_all();
+            // the remaining crossings must be known to the builder when the range is set (its pruning counts them)
+            bld.set_crossings(data[k..].to_vec());
+            bld.set_h_range(a..=b);
+            bld.process_all();
+        }
+        bld.finalize();
+        let c = bld.into_kh_complex();
+        let hm = c.homology();
+        let mut cells = vec![];
+        for i in (a + 1)..b {
+            let s = &hm[i];
+            if s.rank() > 0 || !s.tors().is_empty() { cells.push(format!("{}={}", i, summand_str(s, true))); }
+        }
+        cells.join(" ")
+    });
+    let Some(rs) = restricted else { return format!("Z[{}] | same=P", full) };
+    // the interior cells of the unrestricted table
+    let want: Vec<&str> = full.split_whitespace().filter(|c| {
+        let i: isize = c.split('=').next().unwrap().parse().unwrap(); a < i && i < b }).collect();
+    format!("Z[{}] | same={}", full, (want.join(" ") == rs) as u8)
+}
+
 fn run_case(line: &str, r: &mut Rng) -> String {
     let (head, link) = line.split_once(';').unwrap();
     let t: Vec<&str> = head.split_whitespace().collect();
+    if t[0] == "hr" { return run_hr(&t, link); }
     let red = t[1] == "1";
     let (h, tt): (i64, i64) = (t[2].parse().unwrap(), t[3].parse().unwrap());
     let l = parse_link(link);
@@ -139,6 +185,29 @@ fn main() {
                         }
                     }
                 }
+            }
+            // builder option h_range on diagrams with negative crossings: ranges below, around and above 0, set
+            // before any crossing or after k crossings
+            let nhr = if thorough { 120 } else { 24 };
+            let mut made = 0;
+            let mut tries = 0;
+            while made < nhr && tries < 20 * nhr {
+                tries += 1;
+                let l = r.pick(&links).clone();
+                let n = l.crossing_num();
+                if n < 2 || n > nmax { continue; }
+                let Some((_, nneg)) = guarded(|| l.signed_crossing_nums()) else { continue };
+                let lo = -(nneg as isize);
+                let hi = lo + n as isize;
+                let a = lo - 1 + r.below((n + 1) as u64) as isize;
+                let b = (a + 2 + r.below(4) as isize).min(hi + 1);
+                if b - a < 2 { continue; }
+                let (h, t) = *r.pick(&[(0i64, 0i64), (0, 0), (1, 0), (0, 1), (2, 3)]);
+                let k = if r.bool() { 0 } else { 1 + r.below(n as u64 - 1) as usize };
+                let c = format!("hr {} {} {} {} {} ; {}", h, t, a, b, k, link_str(&l));
+                let res = guarded(|| run_case(&c, &mut r.fork())).unwrap_or("TOP-PANIC".into());
+                o.case(&c, &res);
+                made += 1;
             }
             o.finish();
         }
